@@ -159,6 +159,10 @@ def run(ctx):
         if o.rule == "C02.pair.huffman-commit":
             o.rule = "C16.pair.huffman-commit"
             keep.append(o)
+        elif o.rule == "C02.cover.frame-reset":
+            # nothing of an earlier frame (tables a repeat mode could refer to, pooled buffers) reaches the next one
+            o.rule = "C16.cover.frame-reset"
+            keep.append(o)
     ctx.obs[start:] = keep
     ctx.floor("C16.pair.huffman-commit", len(keep), 4, "huffman commit obligations")
 
